@@ -15,7 +15,7 @@ META = {
         "reached both with validation on (under a zero CRC) and off; D2 in the frame assembler the only effect depending on the `parsed` option is the "
         "choice between parse(...) and None; the three stream requests and the raw concatenation neither depend on it nor on `validate`; no other reader "
         "method branches on either option; D3 the constructor stores its options and performs no call on the data stream. Shared: CRC gate (C01-D4), "
-        "read script (C01-D2), payload slice (C01-D5), trailer taint (C08-D4)."
+        "payload slice (C01-D5)."
     ),
     "trusted": ["CPython ast parser", "sa/symeval.py", "oracle/frames.json"],
 }
@@ -106,8 +106,6 @@ def run(eng, ctx):
             if any(mentions(c, isopt) for conj in e.dnf for c, _ in conj):
                 ctx.bad("C17.D2", f.qualname, norm(e.node)[:80], expected="validate/parsed consulted only in the assembler and the static parser", found=guard_text(e.guards)[:100], **eng.loc(f, e.node))
                 break
-    gate = SH.header_gate(eng, ctx, "C01.D1", m)
-    SH.read_script(eng, ctx, "C01.D2", gate)
 
     # ---------------- D3 constructor
     ctx.rule("C17.D3", "the constructor stores its options and performs no call on the data stream")
